@@ -464,3 +464,11 @@ Definition run_reporting (f : nat -> nat) (errs : list nat) : option nat := run_
    thread of every name (a later thread with the same name replaces the earlier one). *)
 Definition joined_list (uris : list Z) : list nat := seq 0 (List.length uris).
 Definition joined_by_name (name : Z -> Z) (uris : list Z) : list nat := map snd (cfs (map name uris)).
+
+(* ---------------------------------------------------------------- the per-member action of open_links (Wave 16) *)
+(* open_links runs `lambda scf: scf.open_link()` per member: the member thread ends when open_link() returns or raises
+   (TEnd / TFlag in the transition system become enabled).  The variant that also waits for the parameter download
+   (`scf.wait_for_params()`) ends only if that download completes — it never does on a link that dropped between
+   `connected` and `fully_connected`. *)
+Definition member_open_ends (open_link_ends params_complete : bool) : bool := open_link_ends.
+Definition member_open_waiting_ends (open_link_ends params_complete : bool) : bool := open_link_ends && params_complete.
